@@ -137,7 +137,7 @@ func (t *QuicTransport) exchangeStream(ctx context.Context, payload []byte, stre
 	}
 	rc := make(chan res, 1)
 	go func() {
-		_, err = stream.Write(payload)
+		_, err := stream.Write(payload)
 		if err != nil {
 			stream.CancelRead(_DOQ_REQUEST_CANCELLED)
 			stream.CancelWrite(_DOQ_REQUEST_CANCELLED)
